@@ -86,6 +86,27 @@ def clone_value(v):
     return v
 
 
+def ty_args_of_tuple(ty):
+    """component types of a tuple type string `(A, B)` (top-level commas only)"""
+    ty = ty.strip()
+    if not (ty.startswith('(') and ty.endswith(')')):
+        return []
+    out, depth, cur = [], 0, ''
+    for ch in ty[1:-1]:
+        if ch in '<([':
+            depth += 1
+        elif ch in '>)]':
+            depth -= 1
+        if ch == ',' and depth == 0:
+            out.append(cur.strip())
+            cur = ''
+        else:
+            cur += ch
+    if cur.strip():
+        out.append(cur.strip())
+    return out
+
+
 def unkey(k):
     """the value a stored map / set key stands for (composite keys are encoded by Interp.key_of)"""
     if isinstance(k, str) and k.startswith('TS\x1f'):
@@ -246,7 +267,7 @@ class Interp:
             if ty in ('usize', 'u8', 'u16', 'u32', 'u64', 'u128', 'isize', 'i8', 'i16', 'i32', 'i64', 'i128'):
                 return ('int', None)
             if 'fn' in c:
-                return ('fnptr', strip_generics(c['fn']))
+                return ('fnptr', strip_generics(c.get('fn_resolved') or c['fn']))
             if 'str' in c:
                 return ('ref', Cell(('opaque', 'str')))
             if c.get('uneval'):
@@ -344,6 +365,10 @@ class Interp:
                  'BitOr': lambda x, y: x or y, 'BitXor': lambda x, y: x != y}.get(op)
             if f:
                 return mk_bool(f(a[1], b[1]))
+        if a[0] == 'int' and b[0] == 'bool' and b[1] is not None:
+            b = ('int', 1 if b[1] else 0)
+        if a[0] == 'bool' and b[0] == 'int' and a[1] is not None:
+            a = ('int', 1 if a[1] else 0)
         if a[0] == 'int' and b[0] == 'int':
             if a[1] is None or b[1] is None:
                 if op in ('Lt', 'Le', 'Gt', 'Ge', 'Eq', 'Ne'):
@@ -776,6 +801,10 @@ class Interp:
                 if ix[1] not in recv[1].items:
                     raise PanicPath('no entry for the key')
                 return ('ref', recv[1].items[ix[1]])
+        if name in ('core::intrinsics::discriminant_value', 'core::mem::discriminant') and A:
+            dv = self.deref_all(A[0])
+            if dv is not None and dv[0] == 'adt':
+                return ('int', dv[2])
         if name == 'core::default::Default::default' and not A:
             body_, t_ = getattr(self, 'cur', (None, None))
             v_ = self.default_by_type(body_.local_ty(t_['dest']['l'])) if body_ is not None and not t_['dest']['p'] else None
@@ -1322,6 +1351,22 @@ class Interp:
                     raise Unmodelled('Iterator::eq over %s' % sorted({x[0] if x else 'None' for x in a_ + b_}))
                 same = a_ == b_
                 return mk_bool(same if seg == 'eq' else not same)
+            if seg == 'unzip':
+                xs = [self.deref_all(x) for x in self.drain(io, depth)]
+                if any(x is None or x[0] != 'tuple' or len(x[1]) != 2 for x in xs):
+                    raise Unmodelled('unzip of non-pairs')
+                body_, t_ = getattr(self, 'cur', (None, None))
+                ty_ = body_.local_ty(t_['dest']['l']) if body_ is not None and not t_['dest']['p'] else ''
+                halves = []
+                parts_ = ty_args_of_tuple(ty_)
+                for i_ in (0, 1):
+                    vals = [x[1][i_].v for x in xs]
+                    h_ = ty_head(parts_[i_]) if len(parts_) == 2 else 'alloc::vec::Vec'
+                    if h_ in ('std::collections::hash::set::HashSet', 'alloc::collections::btree::set::BTreeSet'):
+                        halves.append(('set', {self.key_of(v) for v in vals}))
+                    else:
+                        halves.append(('vec', vals))
+                return ('tuple', [Cell(halves[0]), Cell(halves[1])])
             if seg == 'zip':
                 a_ = self.drain(io, depth)
                 b_ = self.drain(self.as_iter(A[1]), depth)
